@@ -14,6 +14,7 @@
 #include <cnfizers/Tseitin.h>
 #include <common/ScopedVector.h>
 #include <common/TermNames.h>
+#include <common/VerifHooks.h>
 #include <models/Model.h>
 #include <proof/InterpolationContext.h>
 #include <smtsolvers/SimpSMTSolver.h>
@@ -324,6 +325,20 @@ private:
     vec<PTRef> frameTerms;
     std::size_t firstNotSimplifiedFrame = 0;
     unsigned int insertedFormulasCount = 0;
+
+#ifdef OPENSMT_VERIF_HOOKS
+public:
+    int verifId = 0;
+    // trace event: answer of a check-sat together with the ids of the active frames
+    void verifCheckEvent(char const * answer) const {
+        if (not verif::on()) { return; }
+        std::string text = "CHK " + std::to_string(verifId) + " " + answer;
+        for (std::size_t i = 0; i < frames.frameCount(); ++i) {
+            text += " " + std::to_string(frames[i].getId());
+        }
+        verif::event(text.c_str());
+    }
+#endif
 };
 
 bool MainSolver::trackPartitions() const {
